@@ -95,8 +95,8 @@ META["C04"] = {
             "and the refusal rule; every plan is replayed through TrajectoryExporter.parse_plan/export and Operator.apply and "
             "TLC recomputes each triplet; random plans over random typed domains are trace-validated."}
 META["C07"] = {
-    "engine": "V(+M)", "design_ref": "DESIGN.md section 6 (C07)", "note": HIST_NOTE + " Thread interleavings are not explored "
-            "by this check (the shared-signature mutation that made them matter was removed by a fix: commit).",
+    "engine": "V(+M)", "design_ref": "DESIGN.md section 6 (C07)", "note": HIST_NOTE + " Thread "
+            "interleavings: one pre-emption at line granularity (sys.settrace), not bytecode-level races.",
     "technique": "trace validation of API-call histories against the PddlApi store: after every call TLC checks that every live "
                  "handle (states, runs, domain digest) still has its stored value",
     "text": "Random call histories over one shared domain are recorded with a snapshot of every live handle after each call; "
